@@ -595,19 +595,43 @@ theorem foldl_del_other (k : Str) (ks : List Str) (h : Headers) (hk : k ∉ ks) 
     simp only [List.foldl_cons]
     rw [ih _ hk.2, entries_del_ne hk.1]
 
+theorem entries_removeHopByHop (k : Str) (h : Headers) (hk : k ∉ hopByHopNames h) (hf : k ∉ fixedHopByHop) :
+    entries k (removeHopByHop h) = entries k h := by
+  unfold removeHopByHop
+  rw [foldl_del_other k _ _ hf, foldl_del_other k _ h hk]
+
+/-- the `Connection: Upgrade` / `Upgrade: <type>` pair the reverse proxy puts back touches no other name -/
+theorem entries_upgrade_readd (k : Str) (up : Str) (h : Headers) (h1 : k ≠ upgrade) (h2 : k ≠ connection) :
+    entries k (if up.isEmpty then h else put upgrade [up] (put connection ["Upgrade".toList] h)) = entries k h := by
+  split
+  · rfl
+  · rw [entries_put_ne h1, entries_put_ne h2]
+
+theorem not_fixed_ne {k : Str} (hf : k ∉ fixedHopByHop) : k ≠ upgrade ∧ k ≠ connection := by
+  constructor
+  · intro e; apply hf; rw [e]; decide
+  · intro e; apply hf; rw [e]; decide
+
 /-- A header reaches the upstream through the reverse proxy as `addHeaders` left it provided the
-`Connection` header handed to the reverse proxy does not name it. -/
+`Connection` header handed to the reverse proxy does not name it and it is not one of the fixed hop-by-hop
+headers of `net/http/httputil`. -/
 theorem reverseProxy_keeps_unnamed (ip : Str) (h : Headers) (k : Str)
-    (hx : k ≠ xForwardedFor) (hk : k ∉ hopByHopNames h) :
+    (hx : k ≠ xForwardedFor) (hk : k ∉ hopByHopNames h) (hf : k ∉ fixedHopByHop) :
     entries k (reverseProxy ip h) = entries k h := by
-  unfold reverseProxy removeHopByHop
-  rw [xffAppend_other hx, foldl_del_other k _ h hk]
+  unfold reverseProxy
+  simp only
+  rw [xffAppend_other hx, entries_upgrade_readd k _ _ (not_fixed_ne hf).1 (not_fixed_ne hf).2,
+    entries_removeHopByHop k h hk hf]
 
 /-- X-Forwarded-For ends with the peer after the reverse proxy in every case. -/
 theorem xff_last_is_peer_after_reverseProxy (ip : Str) (h : Headers)
     (hnil : vals xForwardedFor (removeHopByHop h) ≠ some []) (hc : ',' ∉ ip) (hs : ip.head? ≠ some ' ') :
-    ∃ v, entries xForwardedFor (reverseProxy ip h) = [(xForwardedFor, [v])] ∧ lastElem v = ip :=
-  xffAppend_last_is_peer ip _ hnil hc hs
+    ∃ v, entries xForwardedFor (reverseProxy ip h) = [(xForwardedFor, [v])] ∧ lastElem v = ip := by
+  unfold reverseProxy
+  simp only
+  apply xffAppend_last_is_peer ip _ _ hc hs
+  rw [vals_congr (entries_upgrade_readd xForwardedFor _ _ (by decide) (by decide))]
+  exact hnil
 
 /-! `strings.Split` / `strings.Join` on commas -/
 
@@ -733,11 +757,13 @@ theorem connection_names_no_managed (cfg : Cfg) (h : Headers) (k : Str)
 /-- **For every `Connection` header the client sends, the headers fabio maintains reach the upstream**
 (D12d): what `httputil.ReverseProxy` forwards under a managed name is exactly what `addHeaders` left there.
 Assumption (as everywhere): the reverse proxy deletes precisely the headers named by the `Connection`
-tokens (`hopByHopNames`) and appends to X-Forwarded-For. Compose with any sentence above. -/
+tokens (`hopByHopNames`) and its fixed hop-by-hop list, puts `Connection`/`Upgrade` back for a protocol switch
+and appends to X-Forwarded-For. Forced hypothesis: the header is not itself one of the fixed hop-by-hop names
+(an operator who calls the client-IP header `Keep-Alive` loses it). Compose with any sentence above. -/
 theorem managed_headers_survive_connection_tokens (cfg : Cfg) (strip : Str) (r : Req) (ip : Str) (k : Str)
-    (hk : k ∈ managedKeys cfg) (hx : k ≠ xForwardedFor) :
+    (hk : k ∈ managedKeys cfg) (hx : k ≠ xForwardedFor) (hf : k ∉ fixedHopByHop) :
     entries k (reverseProxy ip (addHeadersIP cfg strip r ip)) = entries k (addHeadersIP cfg strip r ip) := by
-  apply reverseProxy_keeps_unnamed ip _ k hx
+  apply reverseProxy_keeps_unnamed ip _ k hx _ hf
   intro hmem
   exact connection_names_no_managed cfg _ k hmem hk
 
@@ -745,8 +771,7 @@ theorem managed_headers_survive_connection_tokens (cfg : Cfg) (strip : Str) (r :
 theorem xff_chain_survives_connection_tokens (cfg : Cfg) (strip : Str) (r : Req) (ip : Str) :
     entries xForwardedFor (removeHopByHop (addHeadersIP cfg strip r ip))
       = entries xForwardedFor (addHeadersIP cfg strip r ip) := by
-  unfold removeHopByHop
-  apply foldl_del_other
+  apply entries_removeHopByHop _ _ _ (by decide)
   intro hmem
   exact connection_names_no_managed cfg _ _ hmem (by simp [managedKeys])
 
@@ -754,7 +779,8 @@ theorem xff_chain_survives_connection_tokens (cfg : Cfg) (strip : Str) (r : Req)
 configured value whatever the client put into `Connection` (and into that header itself). -/
 theorem tls_header_reaches_upstream (cfg : Cfg) (strip : Str) (r : Req) (ip : Str)
     (hne : cfg.tlsHeader ≠ []) (hcn : canonicalKey cfg.tlsHeader ≠ connection)
-    (hx : canonicalKey cfg.tlsHeader ≠ xForwardedFor) (htls : r.tls.isSome = true) :
+    (hx : canonicalKey cfg.tlsHeader ≠ xForwardedFor) (hf : canonicalKey cfg.tlsHeader ∉ fixedHopByHop)
+    (htls : r.tls.isSome = true) :
     entries (canonicalKey cfg.tlsHeader) (reverseProxy ip (addHeadersIP cfg strip r ip))
       = [(canonicalKey cfg.tlsHeader, [cfg.tlsHeaderValue])] := by
   have hmem : canonicalKey cfg.tlsHeader ∈ managedKeys cfg := by
@@ -764,7 +790,7 @@ theorem tls_header_reaches_upstream (cfg : Cfg) (strip : Str) (r : Req) (ip : St
       | cons _ _ => rfl
     unfold managedKeys
     exact List.mem_append_right _ (List.mem_map.mpr ⟨cfg.tlsHeader, by simp [this], rfl⟩)
-  rw [managed_headers_survive_connection_tokens cfg strip r ip _ hmem hx]
+  rw [managed_headers_survive_connection_tokens cfg strip r ip _ hmem hx hf]
   exact (tls_header_iff_tls cfg strip r ip hne hcn).1 htls
 
 /-- What the repair closed, kept as a witness about the code *without* its last statement
